@@ -421,6 +421,7 @@ def cases(ctx):
         yield item
     # ---- M2: call scripts over the whole library
     from . import C14, C12
+    ILLEGAL_GILLHAM = [c for c, v in ralt.altitude_table().items() if v is None and c != 0]
     import random as _r
     specs_names = None
     for k in range(ctx.share(96 if quick else 2000)):
@@ -430,7 +431,26 @@ def cases(ctx):
         fset = []
         for _ in range(14):
             c = rng.random()
-            if c < 0.45:
+            if c < 0.15:
+                # sentinel classes: frames on which the C module returns -999999 / -1 / raises where Python returns None
+                kind = rng.randrange(4)
+                bad_alt = rng.choice((0, rng.choice(ILLEGAL_GILLHAM), rng.choice(ILLEGAL_GILLHAM)))
+                if kind == 0:      # DF20 carrying a valid BDS 6,0 report with IAS and Mach, altitude unknown / illegal
+                    mb, _ac = C12.b60(rng, 21, True)
+                    fset.append(C12.commb_hex(ctx, mb, 20, bad_alt).upper())
+                elif kind == 1:    # DF0/4/16/20 with such an altitude field
+                    df = rng.choice((0, 4, 16, 20))
+                    n = bits.df_len(df)
+                    x = bits.setfield(bits.downlink(df, rng.getrandbits(n - 29), n, rng.getrandbits(24)), n, 20, 32, bad_alt)
+                    fset.append("%0*X" % (n // 4, x))
+                elif kind == 2:    # airborne position with an illegal 12-bit altitude (M bit removed)
+                    a12 = ((bad_alt >> 7) << 6) | (bad_alt & 0x3F)
+                    me = (rng.choice((9, 11, 18)) << 51) | (rng.getrandbits(3) << 48) | (a12 << 36) | rng.getrandbits(36)
+                    fset.append("%028X" % bits.es_frame(17, 5, rng.getrandbits(24), me))
+                else:              # DF17 with a type code on which typecode() is -1 / None for DF != 17/18 twins
+                    x = bits.downlink(rng.choice((19, 22, 24)), rng.getrandbits(83), 112, 0)
+                    fset.append("%028X" % x)
+            elif c < 0.45:
                 tc = rng.randrange(32)
                 me = (tc << 51) | rng.choice((0, (1 << 51) - 1, rng.getrandbits(51), rng.getrandbits(51)))
                 if tc == 28 and rng.random() < 0.5:
@@ -443,8 +463,9 @@ def cases(ctx):
                     mb, ac = rng.getrandbits(56) & rng.getrandbits(56), rng.choice((None, 0, 8191, rng.getrandbits(13)))
                 else:
                     mb, ac = C12.BUILD[reg](rng, df)
-                    if ac is None and rng.random() < 0.4:
-                        ac = rng.choice((0, 8191, rng.getrandbits(13)))
+                    if rng.random() < 0.5:
+                        # altitude / identity field classes that make the C module answer with a sentinel
+                        ac = rng.choice((0, 8191, rng.getrandbits(13), rng.choice(ILLEGAL_GILLHAM), rng.choice(ILLEGAL_GILLHAM)))
                 fset.append(C12.commb_hex(ctx, mb, df, ac).upper())
             else:
                 df = rng.randrange(32)
